@@ -226,6 +226,9 @@ func (r *transport) handleUnrecognizedMethod(
 		if err != nil {
 			return nil, err
 		}
+		if resp.Header == nil {
+			resp.Header = make(http.Header)
+		}
 		internal.CacheStatusBypass.ApplyTo(resp.Header)
 		r.logger.LogCacheBypass(
 			"Bypass; unrecognized (safe) method, served from upstream.",
@@ -238,6 +241,9 @@ func (r *transport) handleUnrecognizedMethod(
 	resp, err := r.upstream.RoundTrip(req)
 	if err != nil {
 		return nil, err
+	}
+	if resp.Header == nil {
+		resp.Header = make(http.Header)
 	}
 	if internal.IsNonErrorStatus(resp.StatusCode) {
 		refs, _ := r.cache.GetRefs(urlKey)
@@ -546,6 +552,11 @@ func (r *transport) roundTripTimed(
 	resp, err = r.upstream.RoundTrip(req)
 	end = r.clock.Now()
 	if resp != nil {
+		if resp.Header == nil {
+			// A hand-written upstream may leave the map nil; net/http copes with
+			// that, and so does everything below once the map exists.
+			resp.Header = make(http.Header)
+		}
 		_ = internal.FixDateHeader(resp.Header, end)
 	}
 	return
